@@ -6,7 +6,7 @@ For each /verif/seeded/<PROP>-<name>/patch.diff: apply it to /repo's working tre
 --also), record exit code + reported signatures, and undo it straight away
 (git -C /repo checkout -- .).  Writes selftest/seeded_results.json.
 
-  selftest/run_seeded.py [--only C19] [--tier quick] [--also C01,C03] [--revert <commit>]
+  selftest/run_seeded.py [--only C19] [--marked] [--tier quick] [--also C01,C03] [--revert <commit>]
 """
 import json
 import os
@@ -45,11 +45,14 @@ def main():
     sdir = "seeded"
     tier = "quick"
     also = []
+    marked = False
     i = 0
     while i < len(args):
         if args[i] == "--only":
             only = args[i + 1]
             i += 1
+        elif args[i] == "--marked":
+            marked = True
         elif args[i] == "--reverts":
             sdir = os.path.join("selftest", "reverts")
         elif args[i] == "--tier":
@@ -68,6 +71,8 @@ def main():
         results = {}
     for d in sorted(os.listdir(os.path.join(VERIF, sdir))):
         if only and not d.startswith(only):
+            continue
+        if marked and not os.path.exists(os.path.join(VERIF, sdir, d, ".round")):
             continue
         patch = os.path.join(VERIF, sdir, d, "patch.diff")
         if not os.path.exists(patch):
